@@ -33,7 +33,27 @@ func init() {
 		var samples []interface{}
 		ops := 0
 		for i := 1; i <= *n; i++ {
-			h, ps := conc.RunHistory(i, *seed*1000+int64(i))
+			// every public call of the Broker returns: a history that does not finish is a verdict, not a hang of the recorder
+			type hres struct {
+				h  *conc.History
+				ps []conc.Problem
+			}
+			hc := make(chan hres, 1)
+			go func(i int) {
+				h, ps := conc.RunHistory(i, *seed*1000+int64(i))
+				hc <- hres{h, ps}
+			}(i)
+			var h *conc.History
+			var ps []conc.Problem
+			select {
+			case r := <-hc:
+				h, ps = r.h, r.ps
+			case <-time.After(60 * time.Second):
+				problems = append(problems, conc.Problem{Prop: "C04", What: fmt.Sprintf("concurrent history %d did not finish within 60 s: Broker calls (registration, getters, threshold setters, Send) never returned - the Broker is stuck", i)})
+				*stress = false
+				i = *n // the process is wedged with leaked goroutines: stop here
+				continue
+			}
 			problems = append(problems, ps...)
 			b, _ := json.Marshal(h)
 			bw.Write(b)
